@@ -35,6 +35,11 @@ LEVEL_TEXT += (
     "on the unchanged tree, DESIGN.md 9.4 / 9.6): "
     "every gbasis contracting local basis functions with einsum makes "
     "the subscripts depend on the rank of X (or uses an ellipsis).")
+LEVEL_TEXT += (
+    " Added in the second hunting round (DESIGN.md 9.6): "
+    "point duality of ElementTriN3 through its overridden gbasis, "
+    "interpreted per index and orientation sign over linear "
+    "combinations of local functions.")
 LEVEL_NOTE = (
     "Assumes numpy arithmetic on arrays is the pointwise arithmetic the "
     "polynomial translation models, numpy.einsum follows its signature, and "
